@@ -33,8 +33,17 @@ def snap(root, prune=None):
     while stack:
         rel = stack.pop()
         d = os.path.join(root, rel) if rel else root
-        with os.scandir(d) as it:
-            names = sorted(e.name for e in it)
+        try:
+            with os.scandir(d) as it:
+                names = sorted(e.name for e in it)
+        except PermissionError:  # unprivileged owner: open the directory up for the listing only
+            m0 = stat.S_IMODE(os.lstat(d).st_mode)
+            os.chmod(d, m0 | 0o700)
+            try:
+                with os.scandir(d) as it:
+                    names = sorted(e.name for e in it)
+            finally:
+                os.chmod(d, m0)
         for n in names:
             r = rel + b"/" + n if rel else n
             if prune is not None and prune(r):
@@ -48,8 +57,17 @@ def snap(root, prune=None):
                 out.append((r, "d", m, b""))
                 stack.append(r)
             elif stat.S_ISREG(st.st_mode):
-                with open(p, "rb") as f:
-                    out.append((r, "f", m, f.read()))
+                try:
+                    with open(p, "rb") as f:
+                        data = f.read()
+                except PermissionError:  # e.g. mode 000 and we are not root
+                    os.chmod(p, m | 0o400)
+                    try:
+                        with open(p, "rb") as f:
+                            data = f.read()
+                    finally:
+                        os.chmod(p, m)
+                out.append((r, "f", m, data))
             else:
                 out.append((r, "o", m, b""))
     out.sort()
@@ -60,13 +78,13 @@ def restore(snapshot, root):
     """Recreate a snapshot under root (root is emptied first)."""
     root = os.fsencode(root)
     if os.path.lexists(root):
-        shutil.rmtree(root)
+        force_rmtree(root)
     os.makedirs(root)
     dirs = []
     for rel, kind, mode, payload in snapshot:  # sorted: parents come before children
         p = os.path.join(root, rel)
         if kind == "d":
-            os.mkdir(p)
+            os.mkdir(p, 0o700)
             dirs.append((p, mode))
         elif kind == "l":
             os.symlink(payload, p)
@@ -81,6 +99,21 @@ def restore(snapshot, root):
             raise ValueError("cannot restore entry of kind %r: %r" % (kind, rel))
     for p, mode in reversed(dirs):
         os.chmod(p, mode)
+
+
+def force_rmtree(root):
+    """rmtree that also works for an unprivileged owner when directories lack permissions."""
+    def onerror(fn, path, exc):
+        parent = os.path.dirname(path)
+        for q in (parent, path):
+            try:
+                if not os.path.islink(q):
+                    os.chmod(q, 0o700)
+            except OSError:
+                pass
+        fn(path)
+
+    shutil.rmtree(root, onerror=onerror)
 
 
 def select(snapshot, pred):
